@@ -870,3 +870,185 @@ def _text(p):
             terms, err = [], "%s: %s" % (type(exc).__name__, str(exc)[:120])
         return Extra(None, text=text[:400], terms=terms, lexerror=err)
     return run
+
+
+# ------------------------------------------- C11 constants behave like numpy
+def _const_params(q):
+    kw = {}
+    for k, v in q.items():
+        if isinstance(v, str) and v == "none":
+            kw[k] = None
+        elif isinstance(v, list) and k == "axis":
+            kw[k] = tuple(v)
+        else:
+            kw[k] = v
+    return kw
+
+
+def _flatten_results(out):
+    if isinstance(out, tuple):
+        return list(out)
+    if isinstance(out, list) and out and isinstance(out[0], numpy.ndarray):
+        return list(out)
+    return [out]
+
+
+@action("constfn")
+def _constfn(p):
+    import warnings
+    import numpoly
+    from .record import Extra, Multi
+    name, sp = p["fn"], p.get("spelling", "numpoly")
+    kw = _const_params(p.get("p", {}))
+
+    def run(*polys):
+        arrays = [numpy.asarray(x.tonumpy() if isinstance(x, numpoly.ndpoly) else x) for x in polys]
+        with warnings.catch_warnings():
+            warnings.simplefilter("ignore")
+            try:
+                ref = _flatten_results(getattr(numpy, name)(*arrays, **kw))
+                np_out, np_proj = "ret", [P.project_array(numpy.asarray(r)) for r in ref]
+            except Exception as exc:  # noqa: BLE001
+                np_out, np_proj = "raise", [P.project_exception(exc)]
+            if np_out == "raise":
+                return Extra(None, np=np_proj, np_out=np_out)       # numpy rejects the arguments: nothing to compare
+            mod = numpy if sp == "numpy" else numpoly
+            out = getattr(mod, name)(*polys, **kw)
+        return Extra(Multi(_flatten_results(out)), np=np_proj, np_out=np_out)
+    return run
+
+
+@action("numdiv")
+def _numdiv(p):
+    import numpoly
+    mod = numpy if p.get("spelling") == "numpy" else numpoly
+    return getattr(mod, p["fn"])
+
+
+# ------------------------------------------------- C08 dispatch: unsupported numpy calls
+def overridable_functions():
+    """Public numpy / numpy.linalg / numpy.fft functions that take part in the
+    __array_function__ protocol, minus the array creators that dispatch only
+    through a `like=` keyword."""
+    import inspect
+    out = {}
+    for modname, mod in (("numpy", numpy), ("numpy.linalg", numpy.linalg), ("numpy.fft", numpy.fft)):
+        for name in sorted(dir(mod)):
+            if name.startswith("_"):
+                continue
+            f = getattr(mod, name)
+            if not callable(f) or not hasattr(f, "_implementation"):
+                continue
+            try:
+                sig = inspect.signature(f)
+            except (TypeError, ValueError):
+                sig = None
+            if sig is not None and "like" in sig.parameters:
+                continue                        # converters / creators: outside the claim
+            out["%s.%s" % (modname, name)] = f
+    return out
+
+
+def public_ufuncs():
+    return {name: getattr(numpy, name) for name in sorted(dir(numpy)) if isinstance(getattr(numpy, name), numpy.ufunc)}
+
+
+def _probe_function(f, poly):
+    """Call f with arguments synthesised from its signature until the call reaches
+    ndpoly.__array_function__ (observed by a spy): only then does its outcome say anything."""
+    import inspect
+    import io
+    import os
+    import tempfile
+    import numpoly
+    try:
+        sig = inspect.signature(f)
+        required = [p for p in sig.parameters.values()
+                    if p.default is inspect.Parameter.empty and p.kind in (p.POSITIONAL_ONLY, p.POSITIONAL_OR_KEYWORD)]
+        n = max(1, len(required))
+    except (TypeError, ValueError):
+        n = 1
+    fillers = [1, (1,), 0, [poly], "ij", "i,i"]
+    candidates = [[poly] * n] + [[poly] + [x] * (n - 1) for x in fillers] + [[[poly, poly]] + [1] * (n - 1)] \
+        + [[x] + [poly] * (n - 1) for x in fillers] + [[io.BytesIO()] + [poly] * max(1, n - 1)]
+    seen = {"hit": False}
+    original = numpoly.ndpoly.__array_function__
+
+    def spy(self, func, types, args, kwargs):
+        seen["hit"] = True
+        return original(self, func, types, args, kwargs)
+    numpoly.ndpoly.__array_function__ = spy
+    cwd = os.getcwd()
+    tmp = tempfile.mkdtemp(prefix="numpoly-verif-probe-")
+    os.chdir(tmp)
+    last = None
+    try:
+        for args in candidates:
+            seen["hit"] = False
+            try:
+                val = f(*args)
+                if seen["hit"]:
+                    return "ret", val
+            except Exception as exc:  # noqa: BLE001
+                if seen["hit"]:
+                    return "raise", exc
+                last = exc                      # numpy's own argument validation: try other arguments
+        return "noproof", last
+    finally:
+        numpoly.ndpoly.__array_function__ = original
+        os.chdir(cwd)
+        import shutil
+        shutil.rmtree(tmp, ignore_errors=True)
+
+
+@action("unsupported")
+def _unsupported(p):
+    import numpoly
+    from .record import Extra
+    kind, name = p["kind"], p["name"]
+
+    def run(poly):
+        if kind == "function":
+            f = overridable_functions()[name]
+            registered = f in numpoly.FUNCTION_COLLECTION
+            if registered:
+                return Extra(None, registered=True, dispatched=True)     # spelling agreement is checked elsewhere
+            status, val = _probe_function(f, poly)
+            if status == "noproof":
+                return Extra(None, registered=registered, dispatched=False, note=repr(val)[:120])
+            if status == "raise":
+                raise val
+            return Extra(val, registered=registered, dispatched=True)
+        uf = public_ufuncs()[name]
+        method = p.get("method", "__call__")
+        args = [poly] * uf.nin
+        if method == "__call__":
+            registered = uf in numpoly.UFUNC_COLLECTION
+            call = lambda: uf(*args)                                   # noqa: E731
+        elif method in ("reduce", "accumulate"):
+            from numpoly.baseclass import REDUCE_MAPPINGS, ACCUMULATE_MAPPINGS
+            registered = uf in (REDUCE_MAPPINGS if method == "reduce" else ACCUMULATE_MAPPINGS)
+            call = lambda: getattr(uf, method)(poly)                   # noqa: E731
+        elif method == "outer":
+            registered = False
+            call = lambda: uf.outer(poly, poly)                        # noqa: E731
+        elif method == "reduceat":
+            registered = False
+            call = lambda: uf.reduceat(poly, [0])                      # noqa: E731
+        else:
+            registered = False
+            call = lambda: uf.at(poly, [0], poly[:1]) if uf.nin == 2 else uf.at(poly, [0])   # noqa: E731
+        if registered:
+            return Extra(None, registered=True, dispatched=True)
+        try:
+            val = call()
+        except numpoly.FeatureNotSupported:
+            raise
+        except (TypeError, ValueError) as exc:
+            if "not supported" in str(exc) or isinstance(exc, numpoly.FeatureNotSupported):
+                raise
+            if method in ("reduce", "accumulate", "outer", "reduceat", "at") and uf.nin != 2:
+                return Extra(None, registered=True, dispatched=True, note="method undefined for this ufunc")
+            raise
+        return Extra(val, registered=registered, dispatched=True)
+    return run
